@@ -10,7 +10,7 @@
    dimension d, or jump-time), and an explicit schedule (fresh draws of every sample; level/pass
    history); `consumed` = all positions used by the samples, in order. *)
 From Coq Require Import ZArith List Bool.
-From RV Require Import Model.Rng Proofs.C08_Rng.
+From RV Require Import Model.Rng Model.RngSim Proofs.C08_Rng Proofs.C08_Sim.
 Import ListNotations.
 Open Scope Z_scope.
 
@@ -191,6 +191,45 @@ Theorem C08_std_derived_orig_refuted :
     std_derived_orig val nxt fuel (Some s) t m n g1 <> std_derived_orig val nxt fuel (Some s) t m n g2.
 Proof. exact std_derived_orig_refuted. Qed.
 
+(* ---- wave 5: the jump-time simulators (SimulationWithJumpTimes, the four *MaximumStep simulators, the SDE processes,
+   the series representation: nothing pre-drawn, Model/RngSim.v).  nb_of_processes = 1, all three entry points, every
+   schedule and level/pass history: the list of variates DRAWN from the generators during the run (numpy and Python
+   streams) IS the list of variates consumed by the samples, and it has no repetition: every variate drawn is consumed
+   exactly once, by exactly one sample; none is drawn between two samples or thrown away.  (In fixed-date mode this is
+   false for the adaptive price(): C08_adaptive_price_exactly_once_refuted.) *)
+Theorem C08_jump_mode_exactly_once : forall seed t nb d g,
+  let m := mkMode false nb d in
+  (forall ss, drawn (events (std_ops seed t m ss) (init g)) = consumed (std_ops seed t m ss) (init g)
+              /\ NoDup (drawn (events (std_ops seed t m ss) (init g))))
+  /\ (forall n0 lv, drawn (events (mlc_ops seed t m n0 lv) (init g)) = consumed (mlc_ops seed t m n0 lv) (init g)
+              /\ NoDup (drawn (events (mlc_ops seed t m n0 lv) (init g))))
+  /\ (forall n0 ps, drawn (events (mlp_ops seed t m n0 ps) (init g)) = consumed (mlp_ops seed t m n0 ps) (init g)
+              /\ NoDup (drawn (events (mlp_ops seed t m n0 ps) (init g)))).
+Proof. exact jump_mode_exactly_once. Qed.
+
+(* the standard engine on LevyCopula2dSeriesRepresentation, schedule = series_sched of the data of every sample
+   (N1, N2 = the two Poisson variates, (a_k, b_k) = thinning draws per product interval, nb = number of intervals;
+   series_wf: every arrival lies in exactly one interval): the run is disciplined (clauses (1)-(5) above), drawn =
+   consumed, and sample i consumes exactly 2 + 3 (N1 + N2) + max (N1, N2) + 2 nb variates *)
+Theorem C08_series_run_exactly_once : forall seed t ds g, Forall series_wf ds ->
+  let ops := series_ops seed t ds in
+  disciplined ops (init g) (seed_choice seed false t)
+  /\ drawn (events ops (init g)) = consumed ops (init g)
+  /\ map (fun s : sample => Z.of_nat (length (snd s))) (samples ops (init g))
+     = map (fun d => 2 + 3 * (sr_n1 d + sr_n2 d) + Z.max (sr_n1 d) (sr_n2 d) + 2 * sr_nb d) ds.
+Proof. exact series_run_exactly_once. Qed.
+
+(* F-C08-3 for ALL pool schedules (delivered tree, fixed-date mode, nb_of_processes > 1): with at least one pre-drawn
+   row and one product date, every schedule that has two non-empty chunks -- any workers, any order, any worker seeds,
+   any other chunks before, between and after -- yields two different samples that both consume the first variate of
+   row 0 (row0_pos g0 = the first Poisson count pre-drawn by the parent) *)
+Theorem C08_pool_fixed_mode_chunks_share_refuted : forall g0 nb d n wseeds c0 w1 s1 ss1 mid w2 s2 ss2 rest,
+  1 <= n -> 1 <= nb ->
+  let sms := snd (pool_run g0 (mkMode true nb d) n wseeds (c0 ++ (w1, s1 :: ss1) :: mid ++ (w2, s2 :: ss2) :: rest)) in
+  ~ NoDup (flat_map snd sms)
+  /\ exists l1 a l2 b l3, sms = l1 ++ a :: l2 ++ b :: l3 /\ In (row0_pos g0) (snd a) /\ In (row0_pos g0) (snd b).
+Proof. exact pool_fixed_mode_chunks_share. Qed.
+
 (* non-vacuity: a concrete adaptive run (two passes, a level added) with its positions; the adaptive
    price() also pre-draws rows it never pops (created 1,2 by initialisation(), 9,10 by next_level()) *)
 Example C08_nonvacuous :
@@ -204,6 +243,21 @@ Example C08_nonvacuous :
   /\ uses (fst (fst r)) = [(false, 7, 13); (false, 7, 22)]
   /\ seeds (fst (fst r)) = [7]
   /\ seed_choice (Some 0) false 5 = 0 /\ seed_choice None false 5 = 5 /\ seed_choice (Some 3) true 5 = 5.
+Proof. vm_compute. repeat split. Qed.
+
+(* non-vacuity of the wave-5 theorems: a series run of two samples ((N1,N2) = (2,1) and (0,3), 3 product intervals)
+   satisfies series_wf, consumes 19 and 20 variates, the first at positions 0..19 of seed 7; a coupling sample whose
+   decision draws are single numpy uniforms; the pool witness of F-C08-3 is an instance of the all-schedules theorem *)
+Example C08_nonvacuous_sim :
+  forallb series_wfb series_demo = true
+  /\ map (fun s : sample => Z.of_nat (length (snd s))) (samples (series_ops (Some 7) 0 series_demo) (init (mkGen (-1) 0 0))) = [19; 20]
+  /\ map snd (samples (series_ops (Some 7) 0 [mkSer 1 0 [(1, 0)] 1]) (init (mkGen (-1) 0 0)))
+     = [[(false, 7, 0); (false, 7, 1); (false, 7, 2); (false, 7, 3); (false, 7, 4); (false, 7, 5); (false, 7, 6); (false, 7, 7)]]
+  /\ dec_single [(false, 3, false); (false, 1, true); (true, 2, false); (false, 1, true)] = true
+  /\ dec_single [(false, 2, true)] = false
+  /\ pool_witness = pool_run (mkGen (-1) 0 0) (mkMode true 1 1) 2 [11; 22]
+                      ([] ++ (0%nat, [(false, 1, false)] :: []) :: [] ++ (1%nat, [(false, 1, false)] :: []) :: [])
+  /\ map (fun s : sample => existsb (fun p : pos => Z.eqb (snd p) 0 && Z.eqb (snd (fst p)) (-1)) (snd s)) (snd pool_witness) = [true; true].
 Proof. vm_compute. repeat split. Qed.
 
 Print Assumptions C08_single_process_disjoint.
@@ -229,4 +283,8 @@ Print Assumptions C08_adaptive_price_exactly_once_refuted.
 Print Assumptions C08_worker_seed_collision_exact.
 Print Assumptions C08_worker_seeds_collide_refuted.
 Print Assumptions C08_std_derived_orig_refuted.
+Print Assumptions C08_jump_mode_exactly_once.
+Print Assumptions C08_series_run_exactly_once.
+Print Assumptions C08_pool_fixed_mode_chunks_share_refuted.
 Print Assumptions C08_nonvacuous.
+Print Assumptions C08_nonvacuous_sim.
